@@ -846,6 +846,9 @@ func (m *endpointManager) resolveWorkloadEndpoints() {
 				m.activeWlEndpoints[id] = workload
 				m.activeWlIfaceNameToID[workload.Name] = id
 				delete(m.pendingWlEpUpdates, id)
+				// The endpoint is active now; any older record of it being shadowed
+				// (possibly under another interface name) is obsolete.
+				delete(m.shadowedWlEndpoints, id)
 
 				if m.isQoSBandwidthSupported() {
 					logCxt.Info("Updating QoS bandwidth state if changed")
